@@ -35,11 +35,14 @@ Simple(inc) == {Circle(inc), CAnn(inc), Base("point", inc), Base("text", inc)}
                 \cup {EAnn(k, d, inc) : k \in {"eannulus", "rannulus"}, d \in {<<3, 4, 5>>, <<0, 1, 1>>}}
                 \cup {[k |-> "line", cx |-> 40, cy |-> -24, x2 |-> 60, y2 |-> 0, inc |-> inc, vis |-> "v", sky |-> FALSE],
                       [k |-> "polygon", cx |-> 0, cy |-> 0, vs |-> << <<0, 0>>, <<32, 4>>, <<12, 28>> >>, inc |-> inc, vis |-> "v", sky |-> FALSE]}
+Poly(inc) == [k |-> "polygon", cx |-> 0, cy |-> 0, vs |-> << <<20, -44>>, <<64, -28>>, <<36, 4>> >>, inc |-> inc, vis |-> "v", sky |-> FALSE]    \* overlaps the circle
 Comp(op, a, b, inc) == [k |-> "compound", op |-> op, a |-> a, b |-> b, inc |-> inc, vis |-> "v", sky |-> FALSE]
 RegsC06 == Simple("absent") \cup Simple("F")
            \cup {Comp(op, Circle("absent"), Ell("ellipse", <<3, 4, 5>>, "absent"), inc) : op \in {"and", "or", "xor"}, inc \in {"absent", "F"}}
            \cup {Comp("or", Comp("and", Circle("absent"), CAnn("absent"), "absent"), Ell("rectangle", <<0, 1, 1>>, "absent"), "F")}
            \cup {Comp(op, Circle("F"), Ell("ellipse", <<3, 4, 5>>, "absent"), "absent") : op \in {"and", "or", "xor"}}     \* excluded operand, compound with its own (empty) meta
+           \cup {Comp(op, Poly("absent"), Circle("absent"), "absent") : op \in {"or", "xor"}}      \* a polygon as the operand that is asked first
+           \cup {Comp("and", CAnn("absent"), Poly("F"), "absent")}
 EllT(k, d, inc) == Base(k, inc) @@ [w |-> 8, h |-> 20, d |-> d]                 \* taller than wide
 RegsNear == {Ell(k, d, "absent") : k \in {"ellipse", "rectangle"}, d \in {<<1, 0, 1>>, <<0, 1, 1>>}} \cup {EAnn("eannulus", <<1, 0, 1>>, "absent")}
 RegsC07 == {Circle("absent"), CAnn("absent")} \cup {Ell(k, d, "absent") : k \in {"ellipse", "rectangle"}, d \in DirsAll}
